@@ -47,26 +47,44 @@ def build_cases(ctx: Ctx):
     def U(n, kind, radix=2, level=1, model=None):
         return {'kind': 'unitary', 'radix': radix, 'n': n, 'table': cc.random_table(rng, radix ** n, kind), 'tkind': kind, 'level': level, 'model': model}
 
-    def S(n, radix=2, level=1, model=None):
-        return {'kind': 'state', 'radix': radix, 'n': n, 'state': {'idx': rng.randrange(radix ** n), 'ph': rng.choice([0, 12, 24, 36, 6])}, 'level': level, 'model': model}
+    def S(n, radix=2, level=1, model=None, idx=None):
+        return {'kind': 'state', 'radix': radix, 'n': n, 'state': {'idx': rng.randrange(radix ** n) if idx is None else idx, 'ph': rng.choice([0, 12, 24, 36, 6])},
+                'level': level, 'model': model}
 
     def Y(n, k, radix=2, level=1, model=None):
         dim = radix ** n
         ins, outs = rng.sample(range(dim), k), rng.sample(range(dim), k)
         return {'kind': 'system', 'radix': radix, 'n': n, 'pairs': [{'i': i, 'o': o, 'ph': rng.choice([0, 12, 24, 16])} for i, o in zip(ins, outs)],
                 'level': level, 'model': model}
+    full = not ctx.quick        # the quick tier keeps one representative per class (every case costs 2-8 CPU seconds)
     # unitaries
-    for kind in ('perm', 'diag', 'ident', 'mono'):
-        cases.append(U(1, kind))
-        cases.append(U(2, kind))
+    cases += [U(1, 'perm'), U(1, 'mono'), U(1, 'ident'), U(2, 'perm'), U(2, 'diag'), U(2, 'mono')]
+    if full:
+        cases += [U(1, 'diag'), U(2, 'ident'), U(3, 'diag')]
     cases += [U(2, 'mono', model=mdl(2, 'line', 'cz_rz_sx')), U(2, 'perm', model=mdl(2, 'line', 'iswap_u3')), U(1, 'mono', model=mdl(1, 'line', 'cz_rz_sx')),
-              U(3, 'diag'), U(3, 'perm', model=mdl(3, 'line', 'cx_u3')), U(2, 'perm', level=2)]
+              U(3, 'perm', model=mdl(3, 'line', 'cx_u3')), U(2, 'perm', level=2)]
     # qutrits
-    cases += [U(1, 'perm', 3), U(1, 'diag', 3), U(1, 'mono', 3), U(1, 'ident', 3), U(2, 'perm', 3), U(1, 'perm', 3, model=mdl(1, 'line', 'csum_vu1', 3))]
-    # states
-    cases += [S(1), S(2), S(2, model=mdl(2, 'line', 'cx_u3')), S(3), S(3, model=mdl(3, 'star', 'cx_u3')), S(2, level=2), S(1, level=2), S(1, 3), S(2, 3)]
+    cases += [U(1, 'perm', 3), U(1, 'mono', 3), U(2, 'perm', 3), U(1, 'perm', 3, model=mdl(1, 'line', 'csum_vu1', 3))]
+    if full:
+        cases += [U(1, 'diag', 3), U(1, 'ident', 3)]
+    # states (a 2-qubit state at level 2 or 3 needs minutes of CPU before it fails in the final scan: thorough tier only)
+    cases += [S(1), S(2), S(2, model=mdl(2, 'line', 'cx_u3')), S(3, model=mdl(3, 'star', 'cx_u3')), S(1, level=2, idx=1), S(1, level=2, idx=0), S(1, level=4, idx=1),
+              S(1, 3), S(1, model=mdl(1, 'line', 'cz_rz_sx'))]
+    if full:
+        cases += [S(3), S(2, 3), S(2, level=2), S(2, level=3)]
     # state systems
-    cases += [Y(1, 1), Y(1, 2), Y(2, 1), Y(2, 2), Y(2, 3), Y(2, 2, model=mdl(2, 'line', 'cx_u3')), Y(3, 2), Y(2, 2, level=2), Y(1, 2, 3)]
+    cases += [Y(1, 2), Y(2, 2), Y(2, 3), Y(2, 2, model=mdl(2, 'line', 'cx_u3')), Y(3, 2), Y(2, 2, level=2), Y(1, 2, 3), Y(2, 1, level=4),
+              Y(1, 1, model=mdl(1, 'line', 'cz_rz_sx'))]
+    if full:
+        cases += [Y(1, 1), Y(2, 1)]
+    # level 4 synthesises up to permutations and reports them in the mappings: SWAP comes back as (almost) nothing
+    SWAP = [{'idx': 0, 'ph': 0}, {'idx': 2, 'ph': 0}, {'idx': 1, 'ph': 0}, {'idx': 3, 'ph': 0}]
+    CX = [{'idx': 0, 'ph': 0}, {'idx': 1, 'ph': 0}, {'idx': 3, 'ph': 0}, {'idx': 2, 'ph': 0}]
+    cases.append({'kind': 'unitary', 'radix': 2, 'n': 2, 'table': SWAP, 'tkind': 'swap', 'level': 4, 'model': None})
+    # a machine wider than the target: the leading physical qudits are coupled (line) / are not coupled (0-2, 1-2)
+    cases.append({'kind': 'unitary', 'radix': 2, 'n': 2, 'table': CX, 'tkind': 'cx', 'level': 1, 'model': mdl(3, 'line', 'cx_u3')})
+    cases.append({'kind': 'unitary', 'radix': 2, 'n': 2, 'table': CX, 'tkind': 'cx', 'level': 1,
+                  'model': {'n': 3, 'edges': [[0, 2], [1, 2]], 'gates': cc.GATESETS['cx_u3'], 'radix': 2, 'topo': 'vee', 'gs': 'cx_u3'}})
     # lists: distinct targets so that the order is observable
     X = [{'idx': 1, 'ph': 0}, {'idx': 0, 'ph': 0}]
     Z = [{'idx': 0, 'ph': 0}, {'idx': 1, 'ph': 24}]
@@ -97,15 +115,22 @@ def build_cases(ctx: Ctx):
         c['sched'] = rng.randrange(1 << 20)
         c['cseed'] = rng.randrange(1 << 16)
         c['trace'] = False
-        c['timeout'] = 240 if c['level'] == 1 else 420
+        c['timeout'] = 240 if c['level'] == 1 else 420 if ctx.quick else 900
     return cases
 
 
 def key_of(case, res, clause):
+    """Fields a known-finding entry can match on: the clause, the input class (kind, radix, width, level, gate set,
+    whether the machine is wider than the target and whether its leading qudits are coupled) and, for a failed
+    compilation, the exception class, the innermost pass frame and the message."""
     m = case.get('model') or {}
-    k = {'clause': clause, 'kind': case['kind'], 'radix': case['radix'], 'width': case['n'], 'level': case['level'], 'gateset': m.get('gs', 'default')}
+    k = {'clause': clause, 'kind': case['kind'], 'radix': case['radix'], 'width': case['n'], 'level': case['level'], 'gateset': m.get('gs', 'default'),
+         'wider': bool(m) and m['n'] > case['n'], 'leading_qudits_connected': cc.prefix_connected(m, case['n'])}
     if clause == 'compile-raised':
-        k.update(exc=res.get('exc', ''), where=res.get('where', ''))
+        k.update(exc=res.get('exc', ''), where=res.get('where', ''), msg=cc.exc_msg(res.get('excline', '')))
+    if clause == 'mapping-out-of-range' and res.get('results'):
+        k['returned_mapping_lengths'] = sorted({len(o['pi']) for o in res['results']} | {len(o['pf']) for o in res['results']})
+        k['target_widths'] = sorted({s.get('n', case['n']) for s in (case['items'] if case['kind'] == 'list' else [case])})
     if case['kind'] == 'unitary':
         k['target'] = case.get('tkind', '')
     return k
@@ -115,7 +140,7 @@ def run(ctx: Ctx) -> Outcome:
     common.use_repo()
     out = Outcome('C03')
     cases = [ctx.replay['replay']['case']] if ctx.replay else build_cases(ctx)
-    results = cc.run_cases(cc.run_compile_case, cases, procs=12)
+    results = cc.run_compile_cases(cases, procs=12)
     sem, keep = [], []
     timeouts = 0
     for c, r in zip(cases, results):
@@ -130,7 +155,7 @@ def run(ctx: Ctx) -> Outcome:
         keep.append((c, r))
     if not sem:
         raise MachineryError('no case produced an observation')
-    verdicts, states, trans, _ = exact.par_validate(SPEC, CFG, sem, ctx.scratch, groups=min(6, len(sem)), chunk=400)
+    verdicts, states, trans, selftest = cc.validate_with_selftest(SPEC, CFG, sem, ctx.scratch, min(6, len(sem)), 'C03')
     for idx, _step, clause, _extra in verdicts:
         c, r = keep[idx]
         inp = {k: c[k] for k in ('table', 'state', 'pairs', 'items') if k in c}
@@ -138,12 +163,24 @@ def run(ctx: Ctx) -> Outcome:
                   % (c['kind'], c['radix'], c['n'], {k: v for k, v in (c.get('model') or {}).items() if k != 'gs'} or 'default', c['level'], clause,
                      str(inp)[:600], cc.short_result(r)))
         out.violations.append(Violation('C03', clause, key_of(c, r, clause), detail, {'case': c}))
-    by = {'kind': {}, 'radix': {}, 'width': {}, 'level': {}, 'target': {}, 'raised': 0}
+    by = {'kind': {}, 'radix': {}, 'width': {}, 'level': {}, 'target': {}, 'raised': 0, 'rejected': 0, 'wider_machine': 0, 'nonidentity_mappings': 0}
     nontrivial = set()
+    # how often each clause of CompileSem.tla had something to decide (bookkeeping over the inputs, not a verdict)
+    decided = {'compile-raised': len(keep), 'list-order': 0, 'mapping-out-of-range': 0, 'mapping-not-injective': 0, 'target-not-reached': 0}
     for c, r in keep:
         for k, v in (('kind', c['kind']), ('radix', c['radix']), ('width', c['n']), ('level', c['level']), ('target', c.get('tkind', '-'))):
             by[k][str(v)] = by[k].get(str(v), 0) + 1
-        if r['status'] != 'ok':
+        by['wider_machine'] += bool(c.get('model')) and c['model']['n'] > c['n']
+        if r['status'] == 'ok':
+            decided['list-order'] += c['kind'] == 'list'
+            for o in r['results']:
+                decided['mapping-out-of-range'] += 1
+                decided['mapping-not-injective'] += len(o['pi']) >= 2
+                decided['target-not-reached'] += 1
+                by['nonidentity_mappings'] += o['pi'] != sorted(o['pi']) or o['pf'] != sorted(o['pf'])
+        if r['status'] == 'rejected':
+            by['rejected'] += 1
+        elif r['status'] != 'ok':
             by['raised'] += 1
         elif any(o['nops'] > 0 for o in r['results']):
             nontrivial.add(common.digest([{k: c.get(k) for k in ('kind', 'table', 'state', 'pairs', 'items')}, c.get('model'), c['level'], c['radix']]))
@@ -153,7 +190,8 @@ def run(ctx: Ctx) -> Outcome:
         'rule': 'one case = one compile() call on the real runtime for a unitary / state / state-system / list input from the exact domain, with '
                 'the returned circuit(s) observed on the relevant basis states; non-trivial = compile returned a non-empty circuit; distinct by '
                 'hash of (input, model, level)',
-        'by': by, 'timeouts': timeouts,
+        'by': by, 'timeouts': timeouts, 'clause_decisions': decided, 'oracle_selftest': selftest,
+        'compile_cpu_s': round(sum(r.get('cpu', 0) for _, r in keep), 1),
         'basis_states_compared': sum(len(o['bs']) for _, r in keep if r['status'] == 'ok' for o in r['results']),
         'samples': [{'case': c, 'result': cc.short_result(r)} for c, r in keep[:1] + keep[len(keep) // 2:len(keep) // 2 + 1] + keep[-1:]],
         'exhaustive': False,
